@@ -573,6 +573,37 @@ def _enum_to_json(enum_class: Type[Enum], value: int) -> Union[str, int]:
     return member.name if member.name is not None else int(member)
 
 
+def _scalar_to_json(proto_type: str, value: Any) -> Any:
+    """JSON form of a single non-message, non-enum value of ``proto_type``."""
+    if proto_type in INT_64_TYPES:
+        return str(value)
+    if proto_type == TYPE_BYTES:
+        return b64encode(value).decode("utf8")
+    if proto_type in (TYPE_FLOAT, TYPE_DOUBLE):
+        return _dump_float(value)
+    return value
+
+
+def _scalar_from_json(proto_type: str, value: Any) -> Any:
+    """Inverse of :func:`_scalar_to_json`."""
+    if proto_type in INT_64_TYPES:
+        return int(value)
+    if proto_type == TYPE_BYTES:
+        return b64decode(value)
+    if proto_type in (TYPE_FLOAT, TYPE_DOUBLE):
+        return _parse_float(value)
+    return value
+
+
+def _map_key_from_json(proto_type: str, key: Any) -> Any:
+    """JSON object keys are always strings: recover the typed map key."""
+    if proto_type == TYPE_STRING:
+        return key
+    if proto_type == TYPE_BOOL:
+        return key == "true" if isinstance(key, str) else key
+    return int(key)
+
+
 def load_varint(stream: "SupportsRead[bytes]", first: bytes = b"") -> Tuple[int, bytes]:
     """
     Load a single varint value from a stream. Returns the value and the raw bytes read.
@@ -1534,7 +1565,14 @@ class Message(ABC):
                         output[cased_name] = _Duration.delta_to_json(value)
                 elif meta.wraps:
                     if value is not None or include_default_values:
-                        output[cased_name] = value
+                        if field_is_repeated:
+                            output[cased_name] = [
+                                _scalar_to_json(meta.wraps, i) for i in value
+                            ]
+                        elif value is None:
+                            output[cased_name] = value
+                        else:
+                            output[cased_name] = _scalar_to_json(meta.wraps, value)
                 elif field_is_repeated:
                     # Convert each item.
                     cls = self._betterproto.cls_by_field[field_name]
@@ -1560,10 +1598,23 @@ class Message(ABC):
                 ):
                     output[cased_name] = value.to_dict(casing, include_default_values)
             elif meta.proto_type == TYPE_MAP:
-                output_map = {**value}
-                for k in value:
-                    if hasattr(value[k], "to_dict"):
-                        output_map[k] = value[k].to_dict(casing, include_default_values)
+                assert meta.map_types
+                value_type = meta.map_types[1]
+                output_map = {}
+                for k, v in value.items():
+                    if isinstance(v, datetime):
+                        output_map[k] = _Timestamp.timestamp_to_json(v)
+                    elif isinstance(v, timedelta):
+                        output_map[k] = _Duration.delta_to_json(v)
+                    elif value_type == TYPE_MESSAGE:
+                        output_map[k] = v.to_dict(casing, include_default_values)
+                    elif value_type == TYPE_ENUM:
+                        enum_class = self._betterproto.cls_by_field[
+                            f"{field_name}.value"
+                        ]
+                        output_map[k] = _enum_to_json(enum_class, v)
+                    else:
+                        output_map[k] = _scalar_to_json(value_type, v)
 
                 if value or include_default_values:
                     output[cased_name] = output_map
@@ -1647,15 +1698,40 @@ class Message(ABC):
                         if isinstance(value, list)
                         else timedelta(seconds=float(value[:-1]))
                     )
-                elif not meta.wraps:
+                elif meta.wraps:
+                    value = (
+                        [_scalar_from_json(meta.wraps, item) for item in value]
+                        if isinstance(value, list)
+                        else _scalar_from_json(meta.wraps, value)
+                    )
+                else:
                     value = (
                         [sub_cls.from_dict(item) for item in value]
                         if isinstance(value, list)
                         else sub_cls.from_dict(value)
                     )
-            elif meta.map_types and meta.map_types[1] == TYPE_MESSAGE:
+            elif meta.proto_type == TYPE_MAP:
+                assert meta.map_types
+                key_type, value_type = meta.map_types
                 sub_cls = cls._betterproto.cls_by_field[f"{field_name}.value"]
-                value = {k: sub_cls.from_dict(v) for k, v in value.items()}
+                if sub_cls == datetime:
+                    value = {k: isoparse(v) for k, v in value.items()}
+                elif sub_cls == timedelta:
+                    value = {
+                        k: timedelta(seconds=float(v[:-1])) for k, v in value.items()
+                    }
+                elif value_type == TYPE_MESSAGE:
+                    value = {k: sub_cls.from_dict(v) for k, v in value.items()}
+                elif value_type == TYPE_ENUM:
+                    value = {
+                        k: sub_cls.from_string(v) if isinstance(v, str) else v
+                        for k, v in value.items()
+                    }
+                else:
+                    value = {
+                        k: _scalar_from_json(value_type, v) for k, v in value.items()
+                    }
+                value = {_map_key_from_json(key_type, k): v for k, v in value.items()}
             else:
                 if meta.proto_type in INT_64_TYPES:
                     value = (
@@ -1837,7 +1913,14 @@ class Message(ABC):
                         output[cased_name] = value
                 elif meta.wraps:
                     if value is not None or include_default_values:
-                        output[cased_name] = value
+                        if field_is_repeated:
+                            output[cased_name] = [
+                                _scalar_to_json(meta.wraps, i) for i in value
+                            ]
+                        elif value is None:
+                            output[cased_name] = value
+                        else:
+                            output[cased_name] = _scalar_to_json(meta.wraps, value)
                 elif field_is_repeated:
                     # Convert each item.
                     value = [i.to_pydict(casing, include_default_values) for i in value]
